@@ -631,6 +631,21 @@ def open_limits_desc(rng):
     return d
 
 
+def presaved_move_desc(rng):
+    """build history: the system is saved once (an autosave), then a leaf is moved - deleted and re-added under the same name at its real
+    place (node and edge counts unchanged) - and only then saved for the round trip.  The sibling order of such a history is not that of
+    any component list, so this stream compares the implementation with itself only."""
+    for _ in range(6):
+        d = tame(rng, gen.gen_system(rng, max_nodes=10, p_limits=0.2, p_rail=0.3, phases=0.2, p_moved=1.0, p_detour=0.0, p_bridge=0.0,
+                                     p_rename=0.0))
+        mv = (d.get("_build") or {}).get("moved")
+        if mv:
+            mv["presave"] = True
+            d["_presaved_move"] = True
+            return d
+    return None
+
+
 def known_witnesses(ctx, tmp):
     from ..check import load_known, VERIF
     import glob
@@ -654,6 +669,10 @@ def stream(ctx, tmp, n, n_small):
         run_case(ctx, tmp, nonappl_desc(rng), "nonapplicable-limits")
         for _k in range(3):
             run_case(ctx, tmp, open_limits_desc(rng), "open-ended-limits", model=False)
+        for _k in range(3):
+            d = presaved_move_desc(rng)
+            if d is not None:
+                run_case(ctx, tmp, d, "presaved-move", model=False)
     if n and skipped > 0.2 * n:
         raise RuntimeError("more than 20%% of the generated systems could not be built/saved (%d/%d)" % (skipped, n))
 
@@ -694,7 +713,7 @@ def replay(ctx, data):
                 if newer != (exc_name(e) == "ValueError"):
                     ctx.oracle(c, "version_gate", "system", {}, {"library": LIBVER, "file": ver, "from_file": exc_name(e)})
         else:
-            if c.get("_open_limits"):
+            if c.get("_open_limits") or c.get("_presaved_move"):
                 run_case(ctx, tmp, c, "replay", model=False)
             else:
                 run_case(ctx, tmp, c, "replay", versions=True, dropkeys=True)
